@@ -209,6 +209,83 @@ class Checker:
                                  "tx_per_block": [len(world.chain.blocks[b].txs) - 1 for b in order]})
 
 
+def large_lane(chk, rng, ntrees):
+    """stores of 1000-2600 blocks (cheap un-mined reward-only blocks; the store does not validate): two or three long
+    branches side by side, so that many heights hold several blocks -- written in a few flushes, reloaded, compared"""
+    import skepticoin.datatypes as dt
+    import skepticoin.signing as sg
+    from skepticoin.blockstore import BlockStore
+    from skepticoin.coinstate import CoinState
+    for idx in range(ntrees):
+        nbranch = rng.choice([2, 2, 3])
+        length = rng.choice([505, 700, 1000, 1300])
+        genesis_id = ref.GENESIS_ID
+        blocks = []       # (real block, parent id, height) in write order
+        tips = [genesis_id] * nbranch
+        n = 0
+        for h in range(1, length + 1):
+            for b in range(nbranch):
+                if b > 0 and h > length - rng.choice([0, 3, 40]):
+                    continue
+                n += 1
+                cb = dt.Transaction([dt.Input(dt.OutputReference(b"\x00" * 32, 0), sg.CoinbaseData(h, b"%d.%d" % (b, n)))],
+                                    [dt.Output(10, sg.SECP256k1PublicKey(bytes([b + 1]) * 64))])
+                blk = dt.Block(dt.BlockHeader(dt.BlockSummary(h, tips[b], cb.hash(), 1615757105 + n, b"\xff" * 32, n),
+                                              dt.PowEvidence(b"\x00" * 32, b"\x00" * 32, b"\x00" * 32)), [cb])
+                tips[b] = blk.hash()
+                blocks.append(blk)
+        path = os.path.join(os.getcwd(), "large-%d.db" % idx)
+        store = quiet(BlockStore, path)
+        k = 0
+        while k < len(blocks):
+            step = rng.choice([len(blocks), 400, 999, 1000, 1001, 1500])
+            for blk in blocks[k:k + step]:
+                store.add_block_to_buffer(blk)
+            store.flush_blocks_to_disk()
+            k += step
+        store.close()
+        chk.c["large_stores"] = chk.c.get("large_stores", 0) + 1
+        chk.c["large_store_blocks"] = chk.c.get("large_store_blocks", 0) + len(blocks)
+        st2 = quiet(BlockStore, path)
+        read = quiet(lambda: list(st2.read_blocks_from_disk()))
+        st2.close()
+        os.remove(path)
+        want = {b.hash(): b.serialize() for b in blocks}
+        want[genesis_id] = None
+        got = {}
+        pos = {}
+        w = {"lane": "large", "branches": nbranch, "length": length}
+        for i, b in enumerate(read):
+            got[b.hash()] = got.get(b.hash(), 0) + 1
+            pos[b.hash()] = i
+        missing = [x for x in want if x not in got]
+        if missing:
+            hs = sorted({b.height for b in blocks if b.hash() in set(missing)})[:5]
+            chk.v("large-store:written-block-missing", "%d of %d written blocks are missing after reload (heights %s...), store with %d "
+                  "branches of length %d" % (len(missing), len(want), hs, nbranch, length), w)
+        if any(v > 1 for v in got.values()):
+            chk.v("large-store:block-read-back-twice", "", w)
+        for b in read:
+            if b.hash() in want and want[b.hash()] is not None and b.serialize() != want[b.hash()]:
+                chk.v("large-store:written-block-bytes-differ", "height %d" % b.height, w)
+                break
+            p = b.header.summary.previous_block_hash
+            if p in pos and pos[p] > pos[b.hash()]:
+                chk.v("large-store:child-before-parent", "block at height %d read before its parent" % b.height, w)
+                break
+        # head of the same height after restart
+        cs = CoinState.empty()
+        skipped = 0
+        for b in read:
+            try:
+                cs = cs.add_block_no_validation(b)
+            except Exception:
+                skipped += 1
+        if skipped or (cs.current_chain_hash and cs.head().height != length):
+            chk.v("large-store:rebuilt-state-differs", "restart: %d blocks could not be applied, head height %s (written chain: %d)" % (
+                skipped, cs.head().height if cs.current_chain_hash else None, length), w)
+
+
 def threads_lane(chk, rng, ntrees):
     """one thread hands blocks to the store while another flushes; a delay injected right after the real sqlite write
     (the point between 'written' and 'buffer cleared') widens the window in which an unlocked implementation loses blocks"""
@@ -310,6 +387,8 @@ def run_shard(spec):
             chk.run_tree(rng, rng.choice([5, 9, 14, 20, 28]), j, spec["tier"])
         if spec["shard"] % 4 == 0:
             threads_lane(chk, rng, 4 if quick else 60)
+        if spec["shard"] % 4 == 1:
+            large_lane(chk, rng, 2 if quick else 12)
     return {"evaluations": chk.c["reloads"], "digests": sorted(chk.digests), "violations": chk.viol, "counters": chk.c,
             "samples": chk.samples}
 
@@ -326,6 +405,7 @@ def finalize(m, tier):
                    ("blocks_with_transactions", c.get("blocks_with_transactions", 0), 300),
                    ("multi_input_transactions", c.get("multi_input_transactions", 0), 100),
                    ("same_transaction_in_two_blocks", c.get("same_transaction_in_two_blocks", 0), 20),
-                   ("thread_lane_flushes_with_data", c.get("thread_lane_flushes_with_data", 0), 40)],
+                   ("thread_lane_flushes_with_data", c.get("thread_lane_flushes_with_data", 0), 40),
+                   ("large_store_blocks", c.get("large_store_blocks", 0), 5000)],
         "extra": {},
     }
